@@ -129,6 +129,13 @@ func (v *StructSchema) process(ctx *p.SchemaCtx) {
 		destPtr := structVal.FieldByName(key).Addr().Interface()
 
 		subValue, fieldKey := dataProv.GetByField(fieldMeta, originalKey)
+		if _, isStruct := processor.(*StructSchema); isStruct {
+			// a flat source (environment, query string, form) has no nested records: a nested
+			// struct reads its fields, by their own tags, from the same source
+			if flat, ok := dataProv.(interface{ FlatSource() bool }); ok && flat.FlatSource() {
+				subValue = dataProv
+			}
+		}
 		subCtx.Data = subValue
 		subCtx.ValPtr = destPtr
 		subCtx.Path.Push(&fieldKey)
